@@ -132,6 +132,10 @@ func (c *Compactor) Compact() (*CompactionResult, error) {
 
 	// Create temp file for new data (always V3 format with name in header area)
 	tempPath := c.filePath + ".compact"
+	// Always remove any leftover temp from a previous crashed compaction: the writer would
+	// otherwise open it for appending and the rename below would publish its stale (or torn)
+	// content as the live file.
+	_ = os.Remove(tempPath)
 	writer, err := NewFileWriterWithName(tempPath, c.maxBlockSize, swampName)
 	if err != nil {
 		result.Error = err
